@@ -381,14 +381,21 @@ func c17Runs(rt *rapid.T) *c17Case {
 			}
 		}
 	}
-	pad(rapid.IntRange(0, 3).Draw(rt, "padHead"), "head")
-	run(rapid.IntRange(0, 7).Draw(rt, "runBefore"), "before")
+	// big: more than 256 top-level declarations and long runs of rewritten
+	// ones, where the declaration alignment works under a budget
+	big := rapid.IntRange(0, 7).Draw(rt, "big") == 0
+	maxPad, maxRun := 3, 7
+	if big {
+		maxPad, maxRun = 60, 170
+	}
+	pad(rapid.IntRange(0, maxPad).Draw(rt, "padHead"), "head")
+	run(rapid.IntRange(0, maxRun).Draw(rt, "runBefore"), "before")
 	fmt.Fprintf(&b, "// keep is untouched. %s\nfunc keep(x bool) {\n\tif x {\n\t\t// deep inside keep %s\n\t\ty() // %s\n\t}\n\t// %s\n}\n\n", tok(), tok(), tok(), tok())
 	if rapid.Bool().Draw(rt, "second") {
 		fmt.Fprintf(&b, "type keepT struct {\n\tA int // %s\n\t// %s\n\tB string\n}\n\n", tok(), tok())
 	}
-	run(rapid.IntRange(0, 7).Draw(rt, "runAfter"), "after")
-	pad(rapid.IntRange(0, 3).Draw(rt, "padTail"), "tail")
+	run(rapid.IntRange(0, maxRun).Draw(rt, "runAfter"), "after")
+	pad(rapid.IntRange(0, maxPad).Draw(rt, "padTail"), "tail")
 	patch := rapid.SampledFrom([]string{
 		"@@\nvar n identifier\nvar v expression\n@@\n-var n = v\n+func n() any { return v }\n",
 		"@@\nvar n identifier\nvar v expression\n@@\n-var n = v\n+const n = v\n",
